@@ -461,6 +461,14 @@ func (s *multiAlgorithmSigner) isAlgorithmSupported(algorithm string) bool {
 	return false
 }
 
+// Sign signs data with the algorithm matching the key format, as documented
+// for [Signer], and fails if that algorithm is not one of the algorithms the
+// signer is restricted to. Without this method the Sign method of the embedded
+// signer would be promoted and the restriction bypassed.
+func (s *multiAlgorithmSigner) Sign(rand io.Reader, data []byte) (*Signature, error) {
+	return s.SignWithAlgorithm(rand, data, underlyingAlgo(s.PublicKey().Type()))
+}
+
 func (s *multiAlgorithmSigner) SignWithAlgorithm(rand io.Reader, data []byte, algorithm string) (*Signature, error) {
 	if !s.isAlgorithmSupported(algorithm) {
 		return nil, fmt.Errorf("ssh: algorithm %q is not supported: %v", algorithm, s.supportedAlgorithms)
